@@ -194,6 +194,17 @@ def check(prog, rep, tier):
         conds = [strip_epochs(c.atom) for c in p.conds]
         if rvv == C(0):
             z = [c for c in p.conds if c.truth and strip_epochs(c.atom) in (("cmp", "==", ("sub", res, C(0), 0), C(0)), ("cmp", "==", ("sub", res, C(-1), 0), C(0)))]
+            # order-independent spellings of "every row value is 0": not any(results), max == 0 and min == 0 (counters may be negative, so both)
+            anyz = [c for c in p.conds if not c.truth and strip_epochs(c.atom) == ("call", ("g", "any"), (res,), ())]
+            from .C02 import callers_sort
+            if anyz:
+                continue
+            if len(z) >= 2 and not callers_sort(prog):
+                okm = False
+                rep.bad("C06.mean-queries", f"{ctx}.__mean_min_query", "zero shortcut on an unsorted list",
+                        "0 is returned when the first and the last row value are 0, and the callers no longer sort the row values: a key whose counters are 0 in the first and "
+                        "last row only is answered 0 instead of its mean-min estimate", f.where(p.exit[2]))
+                continue
             if len(z) < 2:
                 okm = False
                 rep.bad("C06.mean-queries", f"{ctx}.__mean_min_query", "zero shortcut", "0 is returned without both the smallest and the largest row value being 0", f.where(p.exit[2]))
@@ -437,7 +448,19 @@ from ..selftest import Mutant, del_stmt, insert_stmt, replace_class_const, repla
 
 _B, _CB, _E, _CM, _CK, _CC, _H = ("blooms/bloom.py", "blooms/countingbloom.py", "blooms/expandingbloom.py", "countminsketch/countminsketch.py",
                                   "cuckoo/cuckoo.py", "cuckoo/countingcuckoo.py", "hashes.py")
+_CMS = "countminsketch/countminsketch.py"
 MUTANTS = [
+    Mutant("callers stop sorting; the mean-min zero shortcut still looks at the first and last value only", _CMS, seq(
+        replace_expr("CountMinSketch", "add_alt", "sorted(vals)", "vals"),
+        replace_expr("CountMinSketch", "remove_alt", "sorted(vals)", "vals"),
+        replace_expr("CountMinSketch", "check_alt", "sorted([self._bins[i] for i in bins])", "[self._bins[i] for i in bins]"),
+        replace_expr("CountMinSketch", "__min_query", "results[0]", "min(results)")), rule="C06.mean-queries"),
+    Mutant("callers stop sorting; the zero shortcut becomes `not any(results)` (same answers)", _CMS, seq(
+        replace_expr("CountMinSketch", "add_alt", "sorted(vals)", "vals"),
+        replace_expr("CountMinSketch", "remove_alt", "sorted(vals)", "vals"),
+        replace_expr("CountMinSketch", "check_alt", "sorted([self._bins[i] for i in bins])", "[self._bins[i] for i in bins]"),
+        replace_expr("CountMinSketch", "__min_query", "results[0]", "min(results)"),
+        replace_expr("CountMinSketch", "__mean_min_query", "results[0] == 0 and results[-1] == 0", "not any(results)")), expect="silent"),
     Mutant("fnv_1a_32: 31 * seed -> 32 * seed", _H, replace_expr(None, "fnv_1a_32", "31 * seed", "32 * seed"), rule="C06.fnv"),
     Mutant("fnv_1a: multiply before xor", _H, replace_stmt(None, "fnv_1a", "hval ^= t_str", "hval = hval * fnv_64_prime ^ t_str\nhval = hval // fnv_64_prime * fnv_64_prime"), rule="C06.fnv"),
     Mutant("mean-min: width - 1 -> width + 1", _CM, replace_expr("CountMinSketch", "__mean_min_query", "self.width - 1", "self.width + 1"), rule="C06.mean"),
